@@ -610,3 +610,83 @@ Theorem C19_source_biloc_loop : forall fuel c eps a initial last,
   Proofs.FnBilocLoop.for_range fuel (fun i r => Gen.FnBilocLoop.fn_biloc_step i r eps (biloc_iter c eps a i)) initial last
   = biloc_loop fuel c eps a initial last.
 Proof. exact Proofs.FnBilocLoop.source_biloc_loop. Qed.
+
+(* ========================================================================== *)
+(** * Source ties, second wave [loop ties e2]: control flow, loops and result formulas of descriptives.py
+      (tools/fnspecs/descriptives_e2.py; one generated module per tie) *)
+From CNV Require Gen.FnQnTail Proofs.FnQnTail Gen.FnQnPairs Proofs.FnQnPairs Gen.FnBivarFormula Proofs.FnBivarFormula
+  Gen.FnGapper Proofs.FnGapper Gen.FnIqr Proofs.FnIqr Gen.FnWmedianTail Proofs.FnWmedianTail.
+
+(* q_n: `n = len(a)` .. `return quartile / scale` (the scale dispatch with its chained comparison `10 < n < 400`) *)
+Theorem C19_source_qn_tail : forall a,
+  qn_core a == Gen.FnQnTail.fn_qn_tail (percentile QN_PCT (pair_diffs a)) (Z.of_nat (length a)).
+Proof. exact Proofs.FnQnTail.source_qn_tail. Qed.
+(* q_n's nested loops, built from the generated inner iteration, produce the model's pairwise differences ... *)
+Theorem C19_source_qn_pairs : forall a, eqQ (Proofs.FnQnPairs.qn_loops a []) (pair_diffs a).
+Proof. exact Proofs.FnQnPairs.source_qn_pairs. Qed.
+(* ... and loops + quartile + tail are q_n's whole body *)
+Theorem C19_source_qn : forall a,
+  qn_core a == Gen.FnQnTail.fn_qn_tail (percentile QN_PCT (Proofs.FnQnPairs.qn_loops a [])) (Z.of_nat (length a)).
+Proof. exact Proofs.FnQnPairs.source_qn. Qed.
+
+(* biweight_midvariance: the masked pair (d_, w_ = (w ** 2)[mask]) per kept element ... *)
+Theorem C19_source_bivar_terms : forall c eps a initial,
+  Forall2 pair_rel (map (fun p => (fst p, qsq (snd p))) (Proofs.FnBivarFormula.bivar_kept c eps a initial))
+                   (map (fun p => Gen.FnBivarFormula.fn_bivar_terms (fst p) (snd p) true)
+                        (Proofs.FnBivarFormula.bivar_kept c eps a initial)).
+Proof. exact Proofs.FnBivarFormula.source_bivar_terms. Qed.
+(* ... and the result statement: sqrt of the model's formula when some kept w is non-zero, else (mad * 1.4826) *)
+Theorem C19_source_bivar_result : forall (sqrtf : Q -> Q) c eps a initial d0 w0 m0,
+  let P := bivar_parts_of c eps a initial in
+  let dw := Proofs.FnBivarFormula.bivar_kept c eps a initial in
+  let terms := map (fun p => Gen.FnBivarFormula.fn_bivar_terms (fst p) (snd p) true) dw in
+  let r := Gen.FnBivarFormula.fn_bivar_result sqrtf d0 w0 m0 (median (abs_all (sub_all initial a))) (bv_any P)
+             (Z.of_nat (length dw)) (qsum (map Proofs.FnBivarFormula.bivar_num_term terms))
+             (qsum (map Proofs.FnBivarFormula.bivar_den_term terms)) in
+  if bv_any P then exists x, r = sqrtf x /\ x == bv_formula P else r * r == bv_fallback P.
+Proof. exact Proofs.FnBivarFormula.source_bivar_result. Qed.
+
+(* gapper_scale: the per-gap weights idx * (n - idx), idx = 1 .. n-1, and the result *)
+Theorem C19_source_gapper_weights : forall n,
+  gapper_weights n = map (fun i => inject_Z (Gen.FnGapper.fn_gapper_weight (Z.of_nat n) (Z.of_nat i))) (seq 1 (n - 1)).
+Proof. exact Proofs.FnGapper.source_gapper_weights. Qed.
+Theorem C19_source_gapper_result : forall sqrt_pi a idx,
+  gapper_core sqrt_pi a ==
+  Gen.FnGapper.fn_gapper_result (Z.of_nat (length a)) idx (qdot (diffs (qsort a)) (gapper_weights (length a))) sqrt_pi.
+Proof. exact Proofs.FnGapper.source_gapper_result. Qed.
+
+(* interquartile_range's body, np.percentile being the model's percentile *)
+Theorem C19_source_iqr : forall a, iqr_core a == Gen.FnIqr.fn_iqr (fun l p => percentile (inject_Z p) l) a.
+Proof. exact Proofs.FnIqr.source_iqr. Qed.
+
+(* weighted_median from `midpoint = ..` to the end as ONE definition: majority shortcut, allowance, the index searchsorted
+   finds (wm_index), tie test, averaging rule *)
+Theorem C19_source_wmedian_tail : forall ps,
+  let w := map snd ps in
+  let vals := map fst ps in
+  let mid := qmul WMEDIAN_HALF (qsum w) in
+  let i := Proofs.FnWmedianTail.wm_index (qsub mid (wmed_tol ps)) 0 ps in
+  wmedian_sorted ps =
+  Gen.FnWmedianTail.fn_wm_tail (qsum w) (existsb (fun p => qlt_b mid (snd p)) ps)
+             (match ps with [] => 0 | p :: t => fst (argmax_from p t) end)
+             (qcumsum w) (Z.of_nat (length ps)) WMEDIAN_TOL_EPS (qsum w)
+             (Z.of_nat i) (nth i (qcumsum w) 0)
+             (qdiv (qadd (nth i vals 0) (nth (S i) vals 0)) 2) (nth i vals 0).
+Proof. exact Proofs.FnWmedianTail.source_wmedian_tail. Qed.
+
+(* the decorators (signature `wrapper(a, **kwargs)`): empty / one-value short cuts and the call of the wrapped function *)
+From CNV Require Gen.FnOnArray Proofs.FnOnArray.
+Theorem C19_source_on_array : forall default f a,
+  on_array default f a = Gen.FnOnArray.fn_on_array (Z.of_nat (length a)) (hd 0 a) default (f a).
+Proof. exact Proofs.FnOnArray.source_on_array. Qed.
+Theorem C19_source_on_weighted_array : forall default f ps n_w w any_nan,
+  on_weighted_array default f ps =
+  Gen.FnOnArray.fn_on_weighted_empty (Z.of_nat (length ps)) n_w
+    (Gen.FnOnArray.fn_on_weighted_array (Z.of_nat (length ps)) (fst (hd (0, 0) ps)) default w any_nan (f ps)).
+Proof. exact Proofs.FnOnArray.source_on_weighted_array. Qed.
+(* `w_nan = np.isnan(w); if w_nan.any(): w[w_nan] = 0.0` per weight: the weight column of clean_weighted *)
+Theorem C19_source_weight_fill : forall any_nan a w,
+  (In None w -> any_nan = true) ->
+  clean_weighted a w =
+  Proofs.FnOnArray.clean_weighted_with (fun ow => Gen.FnOnArray.fn_weight_fill ow any_nan) a w.
+Proof. exact Proofs.FnOnArray.source_weight_fill. Qed.
